@@ -33,7 +33,8 @@ pub struct RichOpts {
 pub const ISSUER_KEYS: [(&str, &str); 13] = [("K1", "ES256"), ("KE1", "EdDSA"), ("S1", "HS256"), ("K1", "ES256"), ("KE1", "EdDSA"), ("S1", "HS256"),
     // every other algorithm jsonwebtoken offers for these key types (RSA signing is slow: one draw in four)
     ("S1", "HS384"), ("S2", "HS512"), ("KP1", "ES384"), ("KR1", "RS256"), ("KR1", "PS256"), ("KR2", "RS512"), ("KR4", "RS384")];
-pub const HOLDER_KEYS: [(&str, &str); 5] = [("H1", "ES256"), ("HE1", "EdDSA"), ("H1", "ES256"), ("HE1", "EdDSA"), ("HR1", "PS384")];
+// (H2 and HE2 are JWKs with the optional members `use` / `alg`)
+pub const HOLDER_KEYS: [(&str, &str); 7] = [("H1", "ES256"), ("HE1", "EdDSA"), ("H1", "ES256"), ("HE1", "EdDSA"), ("HR1", "PS384"), ("H2", "ES256"), ("HE2", "EdDSA")];
 
 fn select_everything(claims: &serde_json::Value) -> serde_json::Map<String, serde_json::Value> {
     fn all(v: &serde_json::Value) -> serde_json::Value {
@@ -68,6 +69,19 @@ pub fn run(ctx: &mut Ctx, o: &RichOpts) {
         };
         let decoy = o.decoy_on || r.gen_bool(0.5);
         let mut claims = rclaims(&mut r, &o.tree, now());
+        if hk.is_none() && !prelude && r.gen_bool(0.06) {
+            // a `cnf` claim of the USER's own (no holder key is bound, so the library adds none): just another claim, whatever
+            // it contains - also JWKs the library could not use as a key
+            claims["cnf"] = [
+                serde_json::json!({"jwk": {"kty": "EC", "crv": "secp256k1", "x": "WbbXwkqdDTVz4vAVBzgVRUWE8VnRDSlo3rGJAPhrGIk", "y": "gNrXRJTCtwhx3FLsSbSxJ6vXhYFmCZo5i7BPnrvyZSQ"}}),
+                serde_json::json!({"jwk": "not an object"}),
+                serde_json::json!({"jwk": {"kty": "OKP", "crv": "X25519", "x": "hSDwCYkwp1R0i33ctD73Wg2_Og0mOBr066SpjqqbTmo"}}),
+                serde_json::json!({"kid": "thumbprint-only"}),
+                serde_json::json!("a string"),
+                serde_json::json!({"jwk": {}}),
+            ][r.gen_range(0..6)]
+            .clone();
+        }
         if prelude {
             let n = [140usize, 140, 270, 270, 600, 600][case];
             let m = claims.as_object_mut().unwrap();
